@@ -37,6 +37,10 @@ C07_GivenReachesMedia(m, usage, given, med) ==
     \A n \in GivenNames(given) : (Influences(n) /\ m \in ToSet(usage[n])) => med[n] = given[n]
 GivenMismatches(m, usage, given, med) == { n \in GivenNames(given) : Influences(n) /\ m \in ToSet(usage[n]) /\ med[n] # given[n] }
 
+\* error-injection positions given as a time of day reach the media URLs as a segment number: the meaning is kept when that
+\* number is the number of the segment that contains the instant (want: computed from startNumber, timescale, duration)
+C07_PositionKeepsMeaning(want, got) == want = got
+
 \* implementation level: an option is written to the URLs of media type m iff its value differs
 \* from the default and its usage mask contains m (container.py _generate_parameters_dict)
 ImplForwards(m, n, usage, value, default) == value # default /\ m \in ToSet(usage[n])
